@@ -20,6 +20,8 @@ Four components:
 from lib import vfmt  # noqa
 
 PROPERTY = 'C09'
+import isolation as _iso
+ISOLATION = [(n, getattr(_iso, n)) for n in ['resurrector','observable']]      # instance-isolation obligation (harness/isolation.py)
 COMPONENT = 'resurrector'
 QUICK = dict(gen=3000, timeout=240, exhaustive_r=3)
 THOROUGH = dict(gen=200000, exhaustive_r=4)
